@@ -49,6 +49,10 @@ CHECKS = {
    technique="TLA+ specs (Bridge.tla, DPipe.tla) + TLC MC (Conservation, InOrder, CloseIsLocal) + transition tours and seeded scripts on the real Bridge (synctest bubble) and dpipe; traces validated by TLC",
    text="TLC checks conservation (delivered + in flight = written minus scripted drops, nothing duplicated or invented) on Bridge.tla and in-order/close-is-local on DPipe.tla; tours of both state graphs and seeded scripts (DropNextNWrites, ReorderNextNWrites used repeatedly, Drop, Reorder, Filter, Tick/Process, reads into short and long slices, both directions) run on the real code; every write, script call, delivery and the drained point are validated by TLC.",
    note="Bridge tours are sampled in the quick tier (all edges in thorough); ReorderNextNWrites is not re-armed mid-collection; payload tail checked by the harness"),
+ "C10": dict(engine="tlc-trace", design_ref="DESIGN.md §4 C10",
+   technique="TLA+ contract spec (ReadDeadline.tla) + TLC MC + transition-tour, directed and random histories replayed through 4 connection types in virtual time (and the vnet socket in real time); traces validated by TLC",
+   text="One contract spec (timeout only if a non-zero deadline has passed; expiry sticky until reset, also with data queued; a read cannot stay blocked with data queued or once its deadline passed) is checked by TLC for implementability; every transition of its state graph plus directed histories (expiry while nobody reads then extended, two reads after expiry, re-arm after expiry) and seeded random histories run on packetio.Buffer, dpipe, Bridge endpoints and vnet UDP sockets in exact virtual time, and on the vnet socket in real time under the module's own timer semantics; call/return instants and results are validated by TLC.",
+   note="udp listener connections read through packetio.Buffer and are exercised by the C11/C12 harness; real-time run uses 150 ms margins on both sides of every deadline"),
 }
 
 def main():
